@@ -44,7 +44,9 @@ def gen_string(rng):
     """(source text between the quotes, denoted value) over the lexer's alphabet and escapes."""
     src, val = "", ""
     last_backslash = False
-    for _ in range(rng.randint(0, 12)):
+    # mostly short; now and then around the sizes at which emitters split or bound literals (509, 1024, 4095)
+    n = rng.randint(0, 12) if rng.random() < 0.93 else rng.choice([505, 509, 510, 600, 1020, 1030]) + rng.randint(0, 8)
+    for _ in range(n):
         r = rng.random()
         if r < 0.3:
             e = rng.choice(list(ESC))
